@@ -87,6 +87,7 @@ def run(ctx):
                 "then gen_fun over 1-4 leaves that hold no definition, called with random integers; plus every non-empty subset of 4 leaves "
                 "of a fixed nested manager incl. a task reading a whole container; non-trivial = a generated function listing >= 1 task; "
                 "distinct by op list")
+    ctx.scale_if_changed()
     proof_ok = vlib.standard_proof_part(ctx, "props/C13.v", extra_targets=["run/RunManager.vo"])
     cases = subset_cases() + gen_cases(ctx, ctx.pick(260, 5000))
     obs = mc.run_impl_cases(cases)
